@@ -266,6 +266,12 @@ def h_cobs(cx, la, lb, ops):
         elif op == 'conj_neg':
             cmp(z1.conjugate(), lambda x: x[0], lambda x: -x[1], S[:2], 'conjugate')
             cmp(-z1, lambda x: -x[0], lambda x: -x[1], S[:2], 'neg')
+        elif op == 'abs':
+            # modulus of a complex observable: a real observable sqrt(re^2 + im^2), also when one part is a plain number
+            lib.compare(cx, abs(z1), lib.derived_spec(lambda x: fn('sqrt', x[0] * x[0] + x[1] * x[1]), S[:2]), 'abs(cobs)')
+            lib.compare(cx, abs(pe.CObs(a, -1.5)), lib.derived_spec(lambda x: fn('sqrt', x[0] * x[0] + 2.25), [sa]), 'abs(cobs with plain imaginary part)')
+            lib.compare(cx, abs(pe.CObs(0.75, b)), lib.derived_spec(lambda x: fn('sqrt', 0.5625 + x[0] * x[0]), [sb]), 'abs(cobs with plain real part)')
+            lib.compare(cx, abs(a + 2j), lib.derived_spec(lambda x: fn('sqrt', x[0] * x[0] + 4), [sa]), 'abs(obs + complex number)')
 
 
 def h_derived(cx, la, lb, lc, variant):
@@ -402,6 +408,7 @@ def jobs(tier, seed):
         add('cobs', la=la, lb=lb, ops=['div'])
         add('cobs', la=la, lb=lb, ops=['mul_complex', 'add_complex', 'sub_complex', 'div_complex'])
         add('cobs', la=la, lb=lb, ops=['obs_mix', 'obs_complex', 'conj_neg'])
+        add('cobs', la=la, lb=lb, ops=['abs'])
     # explicit derived_observable
     for la, lb, lc in [(_single([1, 2, 3, 4, 5]), _single([2, 3, 4, 5, 6, 8]), {'f|r1': [1, 2, 3, 4, 5]}),
                        ({'e|r1': [1, 2, 3, 4, 5]}, e1, COV2), (COVI, _single([1, 2, 3, 4, 5]), COV2)]:
